@@ -97,17 +97,42 @@ def spacing_for(draw, start, stop, max_nodes=200):
 RATIOS = [0.0, 0.0, 0.0, 1.0, -1.0, 10.0, -10.0, 100.0, -100.0, 1000.0, -1000.0]
 
 
+# Exact structure that real data sets have and jittered points lack (opt-in per check, see clouds(structures=...)):
+#   grid / grid_shuffled  the chosen cells at their exact lattice positions (a previously gridded data set), row-major or in drawn order
+#   grid_full             every node of a rectangle of the lattice, row-major, south to north
+#   grid_full_north_up    the same stored north to south (rasters)
+#   lines_ns / lines_we   survey lines: all points of a lattice column (row) share exactly one easting (northing)
+#   sorted_n / sorted_e_desc  jittered points stored in ascending northing / descending easting order
+STRUCTURES = ["grid", "grid_shuffled", "grid_full", "grid_full_north_up", "lines_ns", "lines_we", "sorted_n", "sorted_e_desc"]
+
+
 @st.composite
-def clouds(draw, min_n=1, max_n=40, max_exp=6, min_exp=-2, ratios=RATIOS, aspects=(1.0, 1.0, 0.1, 10.0, 3.0)):
+def clouds(draw, min_n=1, max_n=40, max_exp=6, min_exp=-2, ratios=RATIOS, aspects=(1.0, 1.0, 0.1, 10.0, 3.0), structures=None):
     """A jittered-lattice cloud: pairwise distinct points, no three exactly
     collinear lattice artefacts thanks to the irrational-looking jitter.
-    Returns a JSON description; coordinates come from cloud_xy()."""
+    Returns a JSON description; coordinates come from cloud_xy().
+    With `structures` (a list drawn from STRUCTURES), a third of the clouds have that exact structure instead of the jitter."""
     n = draw(st.integers(min_n, max_n))
     side = max(3, int(math.ceil(math.sqrt(n))) + draw(st.integers(1, 4)))
     cells = draw(st.lists(st.tuples(st.integers(0, side - 1), st.integers(0, side - 1)), min_size=n, max_size=n, unique=True))
     k = draw(st.integers(min_exp, max_exp))
-    return dict(cells=[list(c) for c in cells], side=side, scale=10.0 ** k, aspect=draw(st.sampled_from(list(aspects))),
-                ratio=[draw(st.sampled_from(list(ratios))), draw(st.sampled_from(list(ratios)))])
+    out = dict(cells=[list(c) for c in cells], side=side, scale=10.0 ** k, aspect=draw(st.sampled_from(list(aspects))),
+               ratio=[draw(st.sampled_from(list(ratios))), draw(st.sampled_from(list(ratios)))])
+    if structures and draw(st.integers(0, 2)) == 0:
+        structure = draw(st.sampled_from(list(structures)))
+        out["structure"] = structure
+        if structure.startswith("grid_full"):
+            # a full p x q rectangle of the lattice with about as many nodes as were asked for
+            p = draw(st.integers(1, max(1, min(side, n))))
+            q = max(1, min(side, n // p))
+            while p * q < min_n:
+                q += 1
+            out["side"] = max(side, p, q)
+            rows = range(q) if structure == "grid_full" else range(q - 1, -1, -1)
+            out["cells"] = [[a, b] for b in rows for a in range(p)]
+        elif structure == "grid":
+            out["cells"] = sorted(out["cells"], key=lambda c: (c[1], c[0]))
+    return out
 
 
 def cloud_xy(c):
@@ -115,10 +140,23 @@ def cloud_xy(c):
     ext_e = c["scale"] * c["side"]
     ext_n = c["scale"] * c["aspect"] * c["side"]
     es, ns = [], []
+    structure = c.get("structure")
+    if structure in ("grid", "grid_shuffled", "grid_full", "grid_full_north_up", "lines_ns", "lines_we"):
+        for a, b in c["cells"]:
+            on_e = structure != "lines_we"  # exact lattice easting (shared by the whole column)
+            on_n = structure != "lines_ns"
+            je = 0.5 if structure.startswith("grid") else JITTER[(5 * a) % 12]
+            jn = 0.5 if structure.startswith("grid") else JITTER[(7 * b + 4) % 12]
+            es.append(c["ratio"][0] * ext_e + c["scale"] * (a + (je if on_e else JITTER[(5 * a + 3 * b) % 12] + 1e-3 * ((31 * a + 17 * b) % 101) / 101.0)))
+            ns.append(c["ratio"][1] * ext_n + c["scale"] * c["aspect"] * (b + (jn if on_n else JITTER[(a + 7 * b + 4) % 12] + 1e-3 * ((13 * a + 29 * b) % 97) / 97.0)))
+        return es, ns
     for a, b in c["cells"]:
         # table jitter plus a micro-jitter unique to the cell, so that no two cells share both offsets (no exact rectangles / cocircular quadruples)
         es.append(c["ratio"][0] * ext_e + c["scale"] * (a + JITTER[(5 * a + 3 * b) % 12] + 1e-3 * ((31 * a + 17 * b) % 101) / 101.0))
         ns.append(c["ratio"][1] * ext_n + c["scale"] * c["aspect"] * (b + JITTER[(a + 7 * b + 4) % 12] + 1e-3 * ((13 * a + 29 * b) % 97) / 97.0))
+    if structure in ("sorted_n", "sorted_e_desc"):
+        order = sorted(range(len(es)), key=(lambda i: (ns[i], es[i])) if structure == "sorted_n" else (lambda i: (-es[i], ns[i])))
+        es, ns = [es[i] for i in order], [ns[i] for i in order]
     return es, ns
 
 
